@@ -3,7 +3,7 @@
 use super::{PropResult, RunCfg};
 use crate::json::J;
 use crate::prng::{fnv1a, Rng};
-use crate::report::{run_parallel, workers, CaseOut, Verdict, Violation};
+use crate::report::{workers, CaseOut, Verdict, Violation};
 use crate::spy::SpyTerm;
 use crate::world::install_session;
 use indicatif::{ProgressBar, ProgressDrawTarget, ProgressStyle};
@@ -308,9 +308,9 @@ pub fn run(cfg: &RunCfg) -> PropResult {
     } else {
         let ns = if cfg.thorough { 3_000_000 } else { 60_000 };
         let nc = if cfg.thorough { 4_000 } else { 150 };
-        let mut r = run_parallel(ns, workers(), |i| sequential_case(cfg.seed, i));
+        let mut r = crate::report::run_parallel_tagged('s', ns, workers(), |i| sequential_case(cfg.seed, i));
         // concurrent cases bring their own threads: run a few at a time
-        r.merge(run_parallel(nc, 3, |i| concurrent_case(cfg.seed, i, cfg.thorough)));
+        r.merge(crate::report::run_parallel_tagged('c', nc, 3, |i| concurrent_case(cfg.seed, i, cfg.thorough)));
         r
     };
     PropResult {
